@@ -726,6 +726,10 @@ class Interp:
     def e_Dict(self, e, env):
         return {self.eval(k, env): self.eval(v, env) for k, v in zip(e.keys, e.values)}
 
+    def e_Slice(self, e, env):
+        return slice(self.eval(e.lower, env) if e.lower else None, self.eval(e.upper, env) if e.upper else None,
+                     self.eval(e.step, env) if e.step else None)
+
     def e_JoinedStr(self, e, env):
         return "<fstring>"
 
@@ -761,6 +765,8 @@ class Interp:
             t = self.truth(v)
             return z3.Not(t) if is_z3(t) else (not t)
         if isinstance(e.op, ast.USub):
+            if isinstance(v, Opaque):
+                return Opaque("neg", [v])
             return -v
         if isinstance(e.op, ast.UAdd):
             return v
@@ -952,6 +958,8 @@ class Interp:
 
     def subscript(self, o, idx):
         from . import libmodels
+        if isinstance(o, (list, tuple, str)) and isinstance(idx, Opaque) and getattr(self.run, "uninterp_libs", False):
+            return Opaque("getitem", [o, idx])
         if isinstance(o, (list, tuple, str)):
             if isinstance(idx, slice) or not is_z3(idx):
                 try:
@@ -1385,6 +1393,40 @@ def div_hints(formulas):
     return hints
 
 
+def _consts(t, acc):
+    seen = set()
+    stack = [t]
+    while stack:
+        x = stack.pop()
+        if x.get_id() in seen:
+            continue
+        seen.add(x.get_id())
+        if z3.is_quantifier(x):
+            stack.append(x.body())
+        elif z3.is_app(x):
+            if x.num_args() == 0 and x.decl().kind() == z3.Z3_OP_UNINTERPRETED:
+                acc.add(x.decl().name())
+            elif x.decl().kind() == z3.Z3_OP_UNINTERPRETED:
+                acc.add(x.decl().name())
+            stack.extend(x.children())
+    return acc
+
+
+def _slice(hyps, goal):
+    syms = _consts(goal, set())
+    hs = [(h, _consts(h, set())) for h in hyps]
+    keep, changed = [False] * len(hs), True
+    while changed:
+        changed = False
+        for i, (h, c) in enumerate(hs):
+            if not keep[i] and (c & syms or not c):
+                keep[i] = True
+                if not c <= syms:
+                    syms |= c
+                    changed = True
+    return [h for (h, _), k in zip(hs, keep) if k]
+
+
 def _conjuncts(g):
     if z3.is_and(g):
         out = []
@@ -1402,15 +1444,21 @@ def discharge(vc, timeout_ms=20000):
     parts = _conjuncts(vc["goal"])
     if len(parts) > 1:
         backend = "z3"
+        proved = []
         for g in parts:
-            st, be, det, mod, _ = discharge(dict(vc, hyps=hyps, goal=g), timeout_ms)
+            # first without the earlier conjuncts (keeps Float64 queries small), then with them as hypotheses (cut rule)
+            st, be, det, mod, _ = discharge(dict(vc, hyps=hyps, goal=g), min(timeout_ms, 30000) if proved else timeout_ms)
+            if st == UNDECIDED and proved:
+                st, be, det, mod, _ = discharge(dict(vc, hyps=hyps + proved, goal=g), timeout_ms)
             if st != DISCHARGED:
                 return st, be, det, mod, time.time() - t0
             if be != "z3":
                 backend = be
-            hyps = hyps + [g]
+            proved.append(g)
         return DISCHARGED, backend, "", None, time.time() - t0
     goal = vc["goal"]
+    full_hyps = hyps
+    hyps = _slice(hyps, goal)          # cone of influence: hypotheses sharing no symbol (transitively) with the goal are dropped
     hints = div_hints(hyps + [goal])
     s = z3.Solver()
     s.set("timeout", timeout_ms)
@@ -1418,6 +1466,18 @@ def discharge(vc, timeout_ms=20000):
     s.add(*hints)
     s.add(z3.Not(goal))
     r = s.check()
+    if r == z3.sat and len(hyps) < len(full_hyps):
+        # a counter-model of the sliced query must also satisfy the dropped hypotheses: re-check with all of them
+        s2 = z3.Solver()
+        s2.set("timeout", timeout_ms)
+        s2.add(*full_hyps)
+        s2.add(*hints)
+        s2.add(z3.Not(goal))
+        r2 = s2.check()
+        if r2 == z3.unsat:
+            return DISCHARGED, "z3", "", None, time.time() - t0
+        if r2 == z3.sat:
+            s = s2
     if r == z3.unsat:
         return DISCHARGED, "z3", "", None, time.time() - t0
     if r == z3.sat:
